@@ -14,6 +14,7 @@ Inductive pexpr :=
 | PValueStr                              (* value_str *)
 | PInner (e : pexpr)                     (* e[1:-1] *)
 | PNormalize (e : pexpr)                 (* self._normalize_newlines(e) *)
+| PProtect (e : pexpr)                   (* _backslash_non_ascii_re.sub(r"\1\\\\", e) *)
 | PEncode (e : pexpr) (codec errors : N) (* e.encode(codec, errors): 0 = "ascii" / "backslashreplace" *)
 | PDecode (e : pexpr) (codec : N)        (* e.decode(codec): 0 = "unicode-escape" *)
 | PRemoveChar (e : pexpr) (c : N)        (* e.replace(<one character c>, "") *)
@@ -46,6 +47,7 @@ Section Interp.
     | PValueStr => VText tok
     | PInner a => match eval a tok with VText s => VText (removelast (tl s)) | VRaise x => VRaise x | _ => VRaise XUnmodelled end
     | PNormalize a => match eval a tok with VText s => VText (normalize nl s) | VRaise x => VRaise x | _ => VRaise XUnmodelled end
+    | PProtect a => match eval a tok with VText s => VText (protect s) | VRaise x => VRaise x | _ => VRaise XUnmodelled end
     | PEncode a codec errors =>
         match eval a tok with
         | VText s => if (codec =? 0) && (errors =? 0) then VBytes (bsr s) else VRaise XUnmodelled
